@@ -103,34 +103,53 @@ Theorem C17_stubs_ignored : forall (w : world) (m : string) (level : N) (names :
 Proof. exact stubs_ignored. Qed.
 Print Assumptions C17_stubs_ignored.
 
-(* ---- builtins: excluded and underscore names never denote the real builtin, whatever the scope binds ---- *)
+(* ---- builtins.  [dev_off] = conformant code; the current code has two open deviations (D170, D171), see *_refuted_* ---- *)
+(* excluded and underscore names never denote the real builtin nor the builtins namespace, for every scope state [e]: whatever
+   the function declares global/nonlocal, binds, deletes; trigger expressions; eval/exec *)
 Theorem C17_builtins : forall (e : nenv) (n : string),
-  In n builtin_exclude \/ starts_underscore n = true -> name_lookup e n <> KBuiltin.
+  In n builtin_exclude \/ starts_underscore n = true ->
+  name_lookup dev_off e n <> KBuiltin /\ name_lookup dev_off e n <> KBuiltinsNs.
 Proof. exact builtins_excluded. Qed.
 Print Assumptions C17_builtins.
 
 (* the six names of the property statement, against the regenerated exclusion set *)
 Theorem C17_six_names : forall (e : nenv) (n : string),
-  In n ["open"; "compile"; "input"; "breakpoint"; "memoryview"; "print"] -> name_lookup e n <> KBuiltin.
+  In n ["open"; "compile"; "input"; "breakpoint"; "memoryview"; "print"] -> name_lookup dev_off e n <> KBuiltin.
 Proof. exact six_never_builtin. Qed.
 Print Assumptions C17_six_names.
 
 (* eval/exec/globals/locals are pyscript's own evaluators (which run the same import check), never the builtins *)
 Theorem C17_eval_exec_wrapped : forall (e : nenv) (n : string),
-  In n ["eval"; "exec"; "globals"; "locals"] -> name_lookup e n <> KBuiltin.
+  In n ["eval"; "exec"; "globals"; "locals"] -> name_lookup dev_off e n <> KBuiltin.
 Proof. exact eval_exec_never_builtin. Qed.
 Print Assumptions C17_eval_exec_wrapped.
 
-(* print and log.* are methods of the script's logger wherever the evaluator's local table holds the installed functions
-   ([ne_local]: everywhere except inside trigger string expressions, where the table is replaced by the trigger variables and
-   print/log.* are simply undefined - C17_builtins/C17_six_names still apply there, for every [e]) *)
-Theorem C17_print_logs : forall e : nenv, ne_sym e = false -> ne_local e = true -> exists lvl, name_lookup e "print" = KLogger lvl.
+(* D170 (open): a lambda body / @pyscript_compile function is native Python and sees the real builtins, e.g. open and __import__ *)
+Theorem C17_builtins_refuted_D170 :
+  exists e n, In n ["open"; "compile"; "input"; "breakpoint"; "memoryview"; "print"]
+              /\ name_lookup {| d_native_builtins := true; d_builtins_leak := false |} e n = KBuiltin.
+Proof. exact builtins_refuted_D170. Qed.
+Print Assumptions C17_builtins_refuted_D170.
+
+(* D171 (open): after any native body was compiled, interpreted code finds "__builtins__" in the script's global table *)
+Theorem C17_builtins_refuted_D171 :
+  exists e n, starts_underscore n = true /\ ne_native e = false
+              /\ name_lookup {| d_native_builtins := false; d_builtins_leak := true |} e n = KBuiltinsNs.
+Proof. exact builtins_refuted_D171. Qed.
+Print Assumptions C17_builtins_refuted_D171.
+
+(* print and log.* are methods of the script's logger in interpreted code whose local table holds the installed functions and
+   which does not itself declare/bind/delete the name ([plain_env]); holds for the current code too (any [cfg]).  Inside trigger
+   string expressions ([ne_local] = false) they are undefined - C17_builtins still applies there. *)
+Theorem C17_print_logs : forall (cfg : deviations) (e : nenv),
+  ne_native e = false -> plain_env e -> exists lvl, name_lookup cfg e "print" = KLogger lvl.
 Proof. exact print_is_logger. Qed.
 Print Assumptions C17_print_logs.
 
-Theorem C17_log_functions : forall (e : nenv) (n lvl : string),
-  ne_sym e = false -> ne_local e = true -> In (n, lvl) [("log.debug", "debug"); ("log.info", "info"); ("log.warning", "warning"); ("log.error", "error")] ->
-  name_lookup e n = KLogger lvl.
+Theorem C17_log_functions : forall (cfg : deviations) (e : nenv) (n lvl : string),
+  ne_native e = false -> plain_env e ->
+  In (n, lvl) [("log.debug", "debug"); ("log.info", "info"); ("log.warning", "warning"); ("log.error", "error")] ->
+  name_lookup cfg e n = KLogger lvl.
 Proof. exact log_funcs_are_loggers. Qed.
 Print Assumptions C17_log_functions.
 
@@ -139,6 +158,6 @@ Theorem C17_model_safety : forall c : icase, icase_model_ok c = true -> spec_saf
 Proof. exact icase_model_safety. Qed.
 Print Assumptions C17_model_safety.
 
-Theorem C17_names_model_implies_spec : forall c : ncase, ncase_model_ok c = true -> ncase_spec_ok c = true.
+Theorem C17_names_model_implies_spec : forall c : ncase, ncase_model_ok dev_off c = true -> ncase_spec_ok c = true.
 Proof. exact ncase_model_implies_spec. Qed.
 Print Assumptions C17_names_model_implies_spec.
